@@ -4,25 +4,24 @@ import SaModel.Props.C01
 /-
 C04: the side conditions of C01 / C03 hold for traced schemas and derived serializations.
 
-Schema side (every enum-free type, every option set): the documented mapping never produces a Map with other than two
-entry children, a FixedSizeBinary, or a dictionary other than Dictionary(UInt32, Utf8 | LargeUtf8):
-  mapping_side : mappingDT o t = (dt, nb, md) → Map2 dt ∧ SchemaOK dt ∧ covered dt
+Schema side (every enum-free type, every option set): the documented mapping never produces a FixedSizeBinary or a dictionary other than Dictionary(UInt32, Utf8 | LargeUtf8):
+  mapping_side : mappingDT o t = (dt, nb, md) → SchemaOK dt ∧ covered dt
 Value side: a derived `Serialize` issues no raw key / value streams and scalars of their own width:
   ser_noRaw, ser_SValOK.
 -/
 namespace SaModel.Roundtrip
 open SaModel SaModel.Spec SaModel.Build SaModel.Lemmas.C03
 
-def Side (dt : DataType) : Prop := Map2 dt ∧ SchemaOK dt ∧ covered dt = true
-def SideFs (fs : Fields) : Prop := Map2Fs fs ∧ SchemaOKFs fs ∧ coveredFs fs = true
+def Side (dt : DataType) : Prop := SchemaOK dt ∧ covered dt = true
+def SideFs (fs : Fields) : Prop := SchemaOKFs fs ∧ coveredFs fs = true
 
 theorem side_prim (o : TraceOpts) (p : Prim) : Side (primDT o p) := by
   cases p with
-  | int t => cases t <;> simp [Side, primDT, intDT, Map2, SchemaOK, covered]
+  | int t => cases t <;> simp [Side, primDT, intDT, SchemaOK, covered]
   | str =>
     simp only [Side, primDT, strDT]
-    split <;> split <;> simp [Map2, SchemaOK, covered, Lemmas.C03.isIntDT, Build.isIntDT, isStrDT]
-  | _ => simp [Side, primDT, Map2, SchemaOK, covered]
+    split <;> split <;> simp [SchemaOK, covered, Build.isIntDT, isStrDT]
+  | _ => simp [Side, primDT, SchemaOK, covered]
 
 mutual
 theorem mapping_side (o : TraceOpts) : ∀ (t : Ty) (dt : DataType) (nb : Bool) (md : Metadata),
@@ -30,9 +29,9 @@ theorem mapping_side (o : TraceOpts) : ∀ (t : Ty) (dt : DataType) (nb : Bool) 
   | .prim p, dt, nb, md, _, hm => by
     simp only [mappingDT, Prod.mk.injEq] at hm; obtain ⟨rfl, rfl, rfl⟩ := hm; exact side_prim o p
   | .unit, dt, nb, md, _, hm => by
-    simp only [mappingDT, Prod.mk.injEq] at hm; obtain ⟨rfl, rfl, rfl⟩ := hm; simp [Side, Map2, SchemaOK, covered]
+    simp only [mappingDT, Prod.mk.injEq] at hm; obtain ⟨rfl, rfl, rfl⟩ := hm; simp [Side, SchemaOK, covered]
   | .unitStruct _, dt, nb, md, _, hm => by
-    simp only [mappingDT, Prod.mk.injEq] at hm; obtain ⟨rfl, rfl, rfl⟩ := hm; simp [Side, Map2, SchemaOK, covered]
+    simp only [mappingDT, Prod.mk.injEq] at hm; obtain ⟨rfl, rfl, rfl⟩ := hm; simp [Side, SchemaOK, covered]
   | .option t, dt, nb, md, hn, hm => by
     rcases hm' : mappingDT o t with ⟨dt', nb', md'⟩
     simp only [mappingDT, hm', Prod.mk.injEq] at hm; obtain ⟨rfl, rfl, rfl⟩ := hm
@@ -45,19 +44,19 @@ theorem mapping_side (o : TraceOpts) : ∀ (t : Ty) (dt : DataType) (nb : Bool) 
     simp only [mappingDT, hm', Prod.mk.injEq] at hm; obtain ⟨rfl, rfl, rfl⟩ := hm
     have ih := mapping_side o t _ _ _ (by simpa [noEnum] using hn) hm'
     unfold Side at ih ⊢
-    split <;> simpa [Map2, Map2F, SchemaOK, SchemaOKF, covered, coveredF] using ih
+    split <;> simpa [SchemaOK, SchemaOKF, covered, coveredF] using ih
   | .tuple ts, dt, nb, md, hn, hm => by
     simp only [mappingDT, Prod.mk.injEq] at hm; obtain ⟨rfl, rfl, rfl⟩ := hm
     have ih := mappingPos_side o ts 0 (by simpa [noEnum] using hn)
-    unfold SideFs at ih; simpa [Side, Map2, SchemaOK, covered] using ih
+    unfold SideFs at ih; simpa [Side, SchemaOK, covered] using ih
   | .tupleStruct _ ts, dt, nb, md, hn, hm => by
     simp only [mappingDT, Prod.mk.injEq] at hm; obtain ⟨rfl, rfl, rfl⟩ := hm
     have ih := mappingPos_side o ts 0 (by simpa [noEnum] using hn)
-    unfold SideFs at ih; simpa [Side, Map2, SchemaOK, covered] using ih
+    unfold SideFs at ih; simpa [Side, SchemaOK, covered] using ih
   | .struct _ fs, dt, nb, md, hn, hm => by
     simp only [mappingDT, Prod.mk.injEq] at hm; obtain ⟨rfl, rfl, rfl⟩ := hm
     have ih := mappingFields_side o fs (by simpa [noEnum] using hn)
-    unfold SideFs at ih; simpa [Side, Map2, SchemaOK, covered] using ih
+    unfold SideFs at ih; simpa [Side, SchemaOK, covered] using ih
   | .map k v, dt, nb, md, hn, hm => by
     rcases hk : mappingDT o k with ⟨kdt, knb, kmd⟩
     rcases hv : mappingDT o v with ⟨vdt, vnb, vmd⟩
@@ -66,38 +65,38 @@ theorem mapping_side (o : TraceOpts) : ∀ (t : Ty) (dt : DataType) (nb : Bool) 
     have ihk := mapping_side o k _ _ _ hn.1 hk
     have ihv := mapping_side o v _ _ _ hn.2 hv
     unfold Side at ihk ihv ⊢
-    simp [Map2, Map2F, SchemaOK, SchemaOKF, SchemaOKFs, covered, coveredF, coveredFs, ihk, ihv]
+    simp [SchemaOK, SchemaOKF, SchemaOKFs, covered, coveredF, coveredFs, ihk, ihv]
   | .enum _ _, _, _, _, hn, _ => by simp [noEnum] at hn
 theorem mappingPos_side (o : TraceOpts) : ∀ (ts : Tys) (i : Nat), noEnumTys ts = true → SideFs (mappingPos o i ts)
-  | .nil, _, _ => by simp [SideFs, mappingPos, Map2Fs, SchemaOKFs, coveredFs]
+  | .nil, _, _ => by simp [SideFs, mappingPos, SchemaOKFs, coveredFs]
   | .cons t r, i, hn => by
     rcases hm : mappingDT o t with ⟨dt, nb, md⟩
     simp only [noEnumTys, Bool.and_eq_true] at hn
     have ih1 := mapping_side o t _ _ _ hn.1 hm
     have ih2 := mappingPos_side o r (i + 1) hn.2
     unfold Side at ih1; unfold SideFs at ih2 ⊢
-    simp [mappingPos, hm, Map2Fs, Map2F, SchemaOKFs, SchemaOKF, coveredFs, coveredF, ih1, ih2]
+    simp [mappingPos, hm, SchemaOKFs, SchemaOKF, coveredFs, coveredF, ih1, ih2]
 theorem mappingFields_side (o : TraceOpts) : ∀ (fs : TFields), noEnumFields fs = true → SideFs (mappingFields o fs)
-  | .nil, _ => by simp [SideFs, mappingFields, Map2Fs, SchemaOKFs, coveredFs]
+  | .nil, _ => by simp [SideFs, mappingFields, SchemaOKFs, coveredFs]
   | .cons n s t r, hn => by
     rcases hm : mappingDT o t with ⟨dt, nb, md⟩
     simp only [noEnumFields, Bool.and_eq_true] at hn
     have ih1 := mapping_side o t _ _ _ hn.1 hm
     have ih2 := mappingFields_side o r hn.2
     unfold Side at ih1; unfold SideFs at ih2 ⊢
-    simp [mappingFields, hm, Map2Fs, Map2F, SchemaOKFs, SchemaOKF, coveredFs, coveredF, ih1, ih2]
+    simp [mappingFields, hm, SchemaOKFs, SchemaOKF, coveredFs, coveredF, ih1, ih2]
 end
 
-/-- every field of a schema satisfies the three schema side conditions of C01 / C03 -/
-theorem sideFs_toList : ∀ (fs : Fields), SideFs fs → ∀ f ∈ fs.toList, Map2F f ∧ SchemaOKF f ∧ coveredF f = true
+/-- every field of a schema satisfies the two schema side conditions of C01 / C03 -/
+theorem sideFs_toList : ∀ (fs : Fields), SideFs fs → ∀ f ∈ fs.toList, SchemaOKF f ∧ coveredF f = true
   | .nil, _, f, hf => by simp [Fields.toList] at hf
   | .cons g r, h, f, hf => by
     unfold SideFs at h
-    simp only [Map2Fs, SchemaOKFs, coveredFs, Bool.and_eq_true] at h
+    simp only [SchemaOKFs, coveredFs, Bool.and_eq_true] at h
     simp only [Fields.toList, List.mem_cons] at hf
     rcases hf with rfl | hf
-    · exact ⟨h.1.1, h.2.1.1, h.2.2.1⟩
-    · exact sideFs_toList r ⟨h.1.2, h.2.1.2, h.2.2.2⟩ f hf
+    · exact ⟨h.1.1, h.2.1⟩
+    · exact sideFs_toList r ⟨h.1.2, h.2.2⟩ f hf
 
 mutual
 theorem frag_noEnum : ∀ (t : Ty), frag t = true → noEnum t = true
